@@ -29,6 +29,22 @@ Check flag_accurate : forall (k : nat) (evs : list event) (ys : list yitem) (f :
   solve_multiple k evs = (ys, f) -> no_panic f ->
   forall i : nat, S i < k -> i < length ys -> (snd (nth i ys (None, false)) = true <-> S i < length ys).
 
+Theorem flag_accurate_used : forall (k : nat) (t : table) (evs : list event) (ys : list yitem) (f : fin),
+  tbl_ok t -> sm k (resume t evs) = (ys, f) -> no_panic f ->
+  forall i : nat, S i < k -> i < length ys -> (snd (nth i ys (None, false)) = true <-> S i < length ys).
+Proof. exact SlgTable.flag_accurate_used. Qed.
+Check flag_accurate_used : forall (k : nat) (t : table) (evs : list event) (ys : list yitem) (f : fin),
+  tbl_ok t -> sm k (resume t evs) = (ys, f) -> no_panic f ->
+  forall i : nat, S i < k -> i < length ys -> (snd (nth i ys (None, false)) = true <-> S i < length ys).
+
+Theorem yields_nodup_used : forall (k : nat) (t : table) (evs : list event),
+  tbl_ok t ->
+  NoDup (flat_map (fun y : yitem => item_csubs (item_of (fst y))) (fst (sm k (resume t evs)))).
+Proof. exact SlgTable.yields_nodup_used. Qed.
+Check yields_nodup_used : forall (k : nat) (t : table) (evs : list event),
+  tbl_ok t ->
+  NoDup (flat_map (fun y : yitem => item_csubs (item_of (fst y))) (fst (sm k (resume t evs)))).
+
 Theorem solve_multiple_prefix : forall (k j : nat) (evs : list event),
   fst (solve_multiple k evs) = firstn k (fst (solve_multiple (k + j) evs)).
 Proof. exact SlgTable.solve_multiple_prefix. Qed.
